@@ -10,6 +10,7 @@ import (
 	"fmt"
 	"io"
 	"reflect"
+	"strings"
 
 	"github.com/go-openapi/runtime"
 
@@ -430,6 +431,9 @@ func call(f func() error) (err error, panicked string) {
 	defer func() {
 		if e := recover(); e != nil {
 			panicked = fmt.Sprint(e)
+			if strings.HasPrefix(panicked, "choice:") {
+				panic(e) // the explorer's own complaint (unreplayable branch), not a panic of the code under test
+			}
 		}
 	}()
 	return f(), ""
